@@ -326,6 +326,9 @@ func (o ChanOps[T]) Close() {
 	}
 	x.tracef("close %s", cs)
 	cs.closed = true
+	// close() detaches every parked sender at once (each of them will panic when it runs again): a receive that
+	// comes after the close can no longer take a parked sender's value
+	cs.sendq = nil
 	x.release(&cs.closeVC)
 	x.hbEvent(&cs.hb, kClose, 0)
 }
